@@ -6,15 +6,22 @@
    computed and shown closed, so the statements hold after ANY finite fault history - no bound on its length. *)
 From Coq Require Import List Bool ZArith.
 Require Import GV.Gen.LifecycleRules GV.Model.Lifecycle GV.Proofs.LifecycleP GV.Model.Heal GV.Proofs.HealP.
+Require GV.Model.Request.
 Import ListNotations.
 
 (* after any finite history of faults, resets and set-spa-info calls, the healthy schedule reaches CONNECTED with a facade on a
-   connected spa, within 400 virtual seconds of the idle configuration (per step: poll 1 s, discovery 11 s, one request
-   exchange 61 s, next ping of a still-pinging connection 67 s) *)
+   connected spa, within 420 virtual seconds of the idle configuration (per step: poll 1 s, discovery 11 s, one request
+   exchange 64 s - at least C06's proved bound for ten attempts, see c09_costs_cover_the_request_bound -, next ping of a still-pinging
+   connection 71 s) *)
 Theorem c09_heals_after_any_fault_history : forall ls s,
   Forall (fun l => fault_label l = true) ls -> runS (entered true) ls = Some s ->
-  exists t, heal idle_costs FUELH s 0 = Some t /\ (t <= 400)%Z.
+  exists t, heal idle_costs FUELH s 0 = Some t /\ (t <= 420)%Z.
 Proof. exact heals_after_any_faults. Qed.
+
+Theorem c09_costs_cover_the_request_bound :
+  (Request.bound (Request.Build_cfg 4000000 2000000 100000 5) (Request.mkc 0 Request.Simple 10 false false) <= k_request idle_costs * 1000000)%Z /\
+  (60000000 + Request.bound (Request.Build_cfg 4000000 2000000 100000 5) (Request.mkc 0 Request.Simple 1 false false) <= k_ping idle_costs * 1000000)%Z.
+Proof. exact request_cost_covers_c06_bound. Qed.
 
 (* the background sequence that drives reconnection never dies - after ANY label list, faults or not *)
 Theorem c09_pump_never_dies : forall c ls s, runS (entered c) ls = Some s -> ppc s <> PDead.
